@@ -328,7 +328,7 @@ def final_open(events):
 def diag_tie(ctx, fixed=None):
     """Model/Diag.v vs Workspace::diagnostics after every event of a history (same published batch, as a map),
     and the client's final view vs the one of a fresh workspace handed the final texts"""
-    n = 120 if ctx.thorough else 30
+    n = 360 if ctx.thorough else 30
     reqs, metas = [], []
     todo = fixed if fixed is not None else [gen_diag_history(ctx.rng)[:2] for _ in range(n)]
     for i, (disk, events) in enumerate(todo):
@@ -427,7 +427,7 @@ def check(ctx):
         ctx.cov["evaluations"] = 1
         return core.finish(ctx)
     # in-process histories
-    n = 20000 if ctx.thorough else 4000
+    n = 60000 if ctx.thorough else 4000
     hs = [gen_history(ctx.rng, wild=(i % 3 == 2)) for i in range(n)]
     corpus = ["H O 1 4 128521 97 98 99 C 1 1 I 0 1 0 3 1 122",                       # F5
               "H O 1 2 13 10 C 1 1 I 0 1 0 1 1 120",
@@ -464,7 +464,7 @@ def check(ctx):
     # diagnostics bookkeeping: model = code, history = fresh
     diag_tie(ctx)
     # real binary
-    for k in range(40 if ctx.thorough else 10):
+    for k in range(120 if ctx.thorough else 10):
         real_history(ctx, k)
         if len(ctx.violations) > 3:
             break
